@@ -307,6 +307,8 @@ func (x c16Sender) Send(p *layers.BFD) error {
 		p.DetectMultiplier == e.s.DetectMult && !p.Poll && !p.Final && !p.Demand && !p.AuthPresent &&
 		!p.Multipoint && p.RequiredMinEchoRxInterval == 0
 	verif.Assert("sent-packet-well-formed", wellFormed)
+	// the send timer was re-armed before sending (periodic transmission never stops)
+	verif.Assert("send-timer-keeps-running", e.timers[c16Send].armed)
 	if e.awaitSend {
 		// recovery phase: the packet reaches the well-behaved peer, which follows the RFC table
 		e.awaitSend = false
